@@ -14,6 +14,22 @@ CHECKS = {
    "stateless model checking of the real router under a cooperative scheduler: all thread interleavings up to a preemption bound x all arrival orders/fault placements, judged against a reference delivery log",
    "pkg/network is compiled from an automatically instrumented copy in which every mutex/channel/select/go/context operation is a scheduling point; closed scenarios (demux, namespaces, duplicates, cancellation+retry, foreign traffic, close/transport failure, lowered buffer bound) are explored for every schedule with <=2 (quick) / <=3 (thorough) preemptions and every arrival order; each ReceiveFrom outcome is judged linearizability-style against the adversarial network's own delivery log; no-enabled-thread = deadlock.",
    "Trusts the scheduler model (sync.Mutex, buffered channels, close, select, go, context.WithCancel; sequentially consistent memory), the source rewriter (rejects every construct it does not model), Go toolchain. Weak-memory effects and unsynchronised accesses are left to the free-running -race pass.", "DESIGN §3.2, §5 C11"),
+ "C10": ("CT", "fault_enumeration",
+   "exhaustive enumeration of quorum sizes x ID assignments x sub-quorums x zero-share groups (honest) and of every message leaf x operator x deviator (single faults) on the real round-by-round session protocol",
+   "All parties of n in {2,3,4}(5) with three ID assignments run session setup twice; agreement of SessionID/transcript, symmetry and global distinctness of pairwise seeds, SubContext agreement/separation for every sub-quorum and zero-sum of PRZS shares on three groups are checked exhaustively; every CBOR leaf of every setup message is altered by every operator for every deviator: an opening that does not match its commitment must be rejected and exactly the deviator blamed, completing parties must still agree.",
+   "Single altered leaf per execution; fixed deterministic random streams; leaf classification (fresh vs opening) is a reviewed table in the check; purego build.", "DESIGN §5 C10"),
+ "C14": ("CT", "exploration",
+   "exhaustive enumeration of all pairs/triples of a point alphabet, scalar alphabets incl. window-digit sweep, MSM tuples and field boundary alphabets against a math/big curve model",
+   "For k256, p256, pallas, vesta, edwards25519 (+prime subgroup), curve25519 (+prime subgroup), BLS12-381 G1/G2: every ordered pair and triple of the exceptional-point alphabet for Add/Sub/Equal/Double/Neg, ScalarMul over boundary scalars + every 4-bit window digit, MultiScalarMul for every tuple of lengths 0..3(4) and bucket-boundary lengths, all pairs of boundary field elements for the 10 prime fields and Fp2, pairing bilinearity/non-degeneracy/MultiPair laws; oracle is the affine math/big model /verif/mc/ref/curve (constants typed in from the standards).",
+   "Trusts math/big and ref/curve (self-tested against published multiples); pairing checked by its laws only (no reference pairing); operands outside the alphabets not covered; purego build.", "DESIGN §5 C14"),
+ "C16": ("BFS", "model_checking",
+   "explicit-state breadth-first search over all homomorphic operation sequences to depth d on the real Paillier/ElGamal objects, reference state = (plaintext, composed nonce) in math/big predicting the exact ciphertext",
+   "From every initial ciphertext Enc(m;r) of the alphabet, every sequence of {Op with every fresh encryption, Op(c,c), OpInv, ScalarOp(k), Shift(m'), ReRandomise(r')} to depth 3 (4 thorough) is applied through the public-key AND the secret-key (CRT) path; in every state the ciphertext must equal (1+N)^m r^N mod N^2 byte for byte on both paths, Decrypt/Open/re-encrypt must agree with the model; keys: general/Blum/safe-prime at 256/512 (1024/2048) bits; refusals of out-of-range plaintexts, non-unit nonces, non-member and foreign ciphertexts; ElGamal same shape over k256, ed25519 subgroup, BLS G1 with exponent model checked via ref/curve.",
+   "Trusts math/big and ref/paillier; fixed prime table; alphabets as stated; purego back end only.", "DESIGN §5 C16"),
+ "C19": ("BFS", "model_checking",
+   "complete enumeration of all transcript operation histories to depth 3 (4) over a byte-splitting alphabet with one global injectivity comparison (#outputs == #abstract histories), plus exhaustive (msg,DST) grids for hash-to-curve/field against math/big and RFC 9380 vectors",
+   "Every history over {domain separators, Append with label/message splits that concatenate to the same bytes, Extract with several lengths, Clone (continue on clone / origin), constructor name} is executed on the real transcript: equal histories give equal bytes at every step, the map history -> probe output is injective over the whole explored set (decides all pairs at once), clones evolve independently, and every step equals a byte-level framing model; hash-to-curve/field: determinism, on-curve and in-subgroup by math/big, DST separation, pairwise distinctness over the grid, RFC 9380 Appendix J/K vectors through the public API.",
+   "Trusts math/big reference curve/field arithmetic and the framing model (pins the wire format); histories beyond depth 3/4 and strings outside the alphabet not covered.", "DESIGN §5 C19"),
 }
 NOT_YET = {}
 for i in range(1, 21):
